@@ -53,6 +53,24 @@ def token_assert(n: Node) -> bool:
     return a is not None and any(isinstance(x, ast.Attribute) and x.attr == "_token" for x in ast.walk(a.test))
 
 
+def token_assert_for(prog, fi: FunctionInfo) -> Callable[[Node], bool]:
+    """token_assert that also recognises asserts on a local alias of self._token."""
+    d = Deps(prog, fi)
+
+    def pred(n: Node) -> bool:
+        a = n.meta.get("assert")
+        if a is None:
+            return False
+        for x in ast.walk(a.test):
+            if isinstance(x, ast.Attribute) and x.attr == "_token":
+                return True
+            if isinstance(x, ast.Name) and d.origins(x) == {"attr:self._token"}:
+                return True
+        return False
+
+    return pred
+
+
 def any_assert(n: Node) -> bool:
     return n.meta.get("assert") is not None
 
@@ -130,7 +148,7 @@ def catches_cancellation(g: CFG, h: ast.ExceptHandler) -> bool:
     return True
 
 
-def classify_handler(g: CFG, h: ast.ExceptHandler) -> list[tuple[str, Node, list[Node]]]:
+def classify_handler(g: CFG, h: ast.ExceptHandler, skip_edge=None) -> list[tuple[str, Node, list[Node]]]:
     """All ways control can leave the handler body: list of (kind, last node, path).
 
     kinds: reraise-same, raise-other, raise-from-cleanup (an exception raised by a call made
@@ -152,6 +170,8 @@ def classify_handler(g: CFG, h: ast.ExceptHandler) -> list[tuple[str, Node, list
     while stack:
         n, path = stack.pop()
         for t, lab in n.succ:
+            if skip_edge is not None and skip_edge(n, t, lab):
+                continue
             if inside(t) and lab not in ("exc", "reraise"):
                 if t.id not in seen:
                     seen.add(t.id)
@@ -375,3 +395,228 @@ def both(*preds: Callable[[Node, Node, str], bool]) -> Callable[[Node, Node, str
 
 def normal_only(a: Node, b: Node, lab: str) -> bool:
     return lab in ("exc", "reraise")
+
+
+# ====================================================================== v2 tools (refactoring-robust matching)
+class Abs:
+    """Abstract value for scenario evaluation: a python object of a known class (by mro names), truthy or not."""
+
+    def __init__(self, *mro: str, truthy: bool = True, tag: str = "") -> None:
+        self.mro = mro
+        self.truthy = truthy
+        self.tag = tag
+
+    def __bool__(self) -> bool:
+        return self.truthy
+
+    def __repr__(self) -> str:
+        return f"<Abs {self.mro[0]}{' ' + self.tag if self.tag else ''}>"
+
+
+A_NONE = None
+A_INT = Abs("int", "object")
+A_BOOL = Abs("bool", "int", "object")
+A_FLOAT = Abs("float", "object")
+A_FUNC = Abs("function", "Callable", "object")
+A_OBJ = Abs("object")
+
+
+def _class_names(e: ast.AST) -> list[str] | None:
+    """Names of the classes in an isinstance() second argument / class pattern: T, (A, B), A | B."""
+    if isinstance(e, (ast.Name, ast.Attribute)):
+        return [(dotted(e) or "").rsplit(".", 1)[-1]]
+    if isinstance(e, ast.Tuple):
+        out: list[str] = []
+        for x in e.elts:
+            sub = _class_names(x)
+            if sub is None:
+                return None
+            out += sub
+        return out
+    if isinstance(e, ast.BinOp) and isinstance(e.op, ast.BitOr):
+        a, b = _class_names(e.left), _class_names(e.right)
+        return None if a is None or b is None else a + b
+    if isinstance(e, ast.Call) and isinstance(e.func, ast.Name) and e.func.id == "tuple":
+        return None
+    return None
+
+
+def abs_isinstance(value: object, classes: list[str]) -> object:
+    if value is None:
+        return "NoneType" in classes or "object" in classes
+    if isinstance(value, Abs):
+        return any(c in value.mro for c in classes)
+    if isinstance(value, bool):
+        return any(c in ("bool", "int", "object") for c in classes)
+    if isinstance(value, int):
+        return any(c in ("int", "object") for c in classes)
+    if isinstance(value, float):
+        return any(c in ("float", "object") for c in classes)
+    return NOVALUE
+
+
+_prev_eval_expr = eval_expr
+
+
+def eval_expr(e: ast.AST, env: Callable[[ast.AST], object]) -> object:  # noqa: F811 - extends the basic evaluator
+    v = env(e)
+    if v is not NOVALUE:
+        return v
+    if isinstance(e, ast.Call) and isinstance(e.func, ast.Name) and e.func.id == "isinstance" and len(e.args) == 2:
+        val = eval_expr(e.args[0], env)
+        names = _class_names(e.args[1])
+        if val is not NOVALUE and names is not None:
+            return abs_isinstance(val, names)
+        return NOVALUE
+    if isinstance(e, ast.Call) and isinstance(e.func, ast.Name) and e.func.id == "callable" and len(e.args) == 1:
+        val = eval_expr(e.args[0], env)
+        if isinstance(val, Abs):
+            return "Callable" in val.mro or "function" in val.mro
+        if val is None or isinstance(val, (int, float)):
+            return False
+        return NOVALUE
+    if isinstance(e, ast.Call) and isinstance(e.func, ast.Name) and e.func.id == "len" and len(e.args) == 1:
+        val = eval_expr(e.args[0], env)
+        if isinstance(val, (list, tuple, dict, str)):
+            return len(val)
+        return NOVALUE
+    if isinstance(e, ast.IfExp):
+        t = eval_expr(e.test, env)
+        if t is NOVALUE:
+            return NOVALUE
+        return eval_expr(e.body if t else e.orelse, env)
+    return _prev_eval_expr(e, env)
+
+
+_prev_eval_pattern = eval_pattern
+
+
+def eval_pattern(case: ast.match_case, env: Callable[[ast.AST], object]) -> object:  # noqa: F811
+    m = parent(case)
+    if isinstance(m, ast.Match):
+        subj = eval_expr(m.subject, env)
+        if subj is not NOVALUE:
+
+            def go(p: ast.pattern) -> object:
+                if isinstance(p, ast.MatchAs):
+                    return True if p.pattern is None else go(p.pattern)
+                if isinstance(p, ast.MatchSingleton):
+                    return subj is p.value
+                if isinstance(p, ast.MatchValue) and isinstance(p.value, ast.Constant):
+                    return (subj == p.value.value) if not isinstance(subj, Abs) else False
+                if isinstance(p, ast.MatchClass) and not p.patterns and not p.kwd_patterns:
+                    names = _class_names(p.cls)
+                    return abs_isinstance(subj, names) if names else NOVALUE
+                if isinstance(p, ast.MatchClass) and len(p.patterns) == 1 and isinstance(p.patterns[0], ast.MatchAs) and p.patterns[0].pattern is None:
+                    names = _class_names(p.cls)
+                    return abs_isinstance(subj, names) if names else NOVALUE
+                if isinstance(p, ast.MatchOr):
+                    vals = [go(x) for x in p.patterns]
+                    if any(v is True for v in vals):
+                        return True
+                    return NOVALUE if any(v is NOVALUE for v in vals) else False
+                if isinstance(p, ast.MatchSequence):
+                    if isinstance(subj, (list, tuple)):
+                        star = any(isinstance(x, ast.MatchStar) for x in p.patterns)
+                        return len(subj) >= len(p.patterns) - 1 if star else len(subj) == len(p.patterns)
+                    if subj is None or isinstance(subj, (int, float, Abs)):
+                        return False if not (isinstance(subj, Abs) and ("list" in subj.mro or "tuple" in subj.mro)) else NOVALUE
+                return NOVALUE
+
+            return go(case.pattern)
+    return _prev_eval_pattern(case, env)
+
+
+class Scenario:
+    """Scenario evaluation with constant propagation through locals (fixpoint, scenario-refined, not path
+    sensitive): a local evaluates to the common value of those of its definitions that are reachable in
+    the scenario.  Gives `skip` (an edge predicate) and `reach` (reachable node ids)."""
+
+    def __init__(self, g: CFG, deps: "Deps", env: Callable[[ast.AST], object], rounds: int = 4) -> None:
+        self.g, self.deps, self.base_env = g, deps, env
+        self.reach: set[int] = {n.id for n in g.nodes}
+        self._defnodes: dict[str, list[Node]] = {}
+        for n in g.nodes:
+            if n.kind == "stmt" and isinstance(n.ast, (ast.Assign, ast.AnnAssign)) and getattr(n.ast, "value", None) is not None:
+                tgts = n.ast.targets if isinstance(n.ast, ast.Assign) else [n.ast.target]
+                for t in tgts:
+                    if isinstance(t, ast.Name):
+                        self._defnodes.setdefault(t.id, []).append(n)
+        self._all_defs_known: dict[str, bool] = {}
+        for _ in range(rounds):
+            self._cache: dict[int, object] = {}
+            new = g.reachable([g.entry], skip_edge=self.skip)
+            if new == self.reach:
+                break
+            self.reach = new
+
+    def env(self, e: ast.AST) -> object:
+        v = self.base_env(e)
+        if v is not NOVALUE:
+            return v
+        if isinstance(e, ast.Name) and isinstance(e.ctx, ast.Load):
+            owner = self.deps.owner(e.id)
+            if owner is None:
+                return NOVALUE
+            kinds = {k for k, _ in self.deps.defs(owner, e.id)}
+            if kinds - {"value"}:
+                return NOVALUE
+            if owner is not self.deps.fi:
+                sv = self.deps.single_value(e.id)
+                return eval_expr(sv, self.env) if sv is not None and not isinstance(sv, (ast.Await, ast.Yield)) else NOVALUE
+            nodes = [n for n in self._defnodes.get(e.id, []) if n.id in self.reach and not getattr(n.ast, "_inline_init", False)]
+            n_defs = len([1 for k, _ in self.deps.defs(owner, e.id)])
+            walrus = [x for x in self.deps.fi.own_nodes() if isinstance(x, ast.NamedExpr) and x.target.id == e.id]
+            if not nodes and not walrus:
+                return NOVALUE
+            vals = []
+            for n in nodes:
+                direct = self.base_env(n.ast.value)
+                if direct is not NOVALUE:
+                    vals.append(direct)
+                    continue
+                if isinstance(n.ast.value, (ast.Await, ast.Yield, ast.YieldFrom)):
+                    return NOVALUE
+                vals.append(eval_expr(n.ast.value, self.env))
+            for w in walrus:
+                vals.append(eval_expr(w.value, self.env))
+            if any(v is NOVALUE for v in vals):
+                return NOVALUE
+            first = vals[0]
+            if all((v is first) or (not isinstance(v, Abs) and not isinstance(first, Abs) and type(v) is type(first) and v == first) for v in vals):
+                return first
+            if all(bool(v) == bool(first) for v in vals) and all(v is None or isinstance(v, Abs) for v in vals):
+                return first if all(v is None for v in vals) else NOVALUE
+            return NOVALUE
+        return NOVALUE
+
+    def skip(self, a: Node, b: Node, lab: str) -> bool:
+        if a.kind not in ("test", "match-case") or lab not in ("T", "F"):
+            return False
+        if a.id not in self._cache:
+            self._cache[a.id] = eval_pattern(a.ast, self.env) if a.kind == "match-case" else eval_expr(a.ast, self.env)  # type: ignore[arg-type]
+        v = self._cache[a.id]
+        if v is NOVALUE:
+            return False
+        return lab != ("T" if v else "F")
+
+    def values_of(self, name: str) -> list[ast.AST]:
+        """Defining expressions of a local that are reachable in this scenario."""
+        return [n.ast.value for n in self._defnodes.get(name, []) if n.id in self.reach and not getattr(n.ast, "_inline_init", False)]
+
+
+def classify_handler_for(g: CFG, h: ast.ExceptHandler, exc_class: str) -> list[tuple[str, Node, list[Node]]]:
+    """classify_handler restricted to the paths an exception of class `exc_class` takes through the handler
+    (guards like `if isinstance(exc, CancelledError): raise` inside a merged handler are evaluated)."""
+    from .cfg import exc_is_sub
+
+    def env(e: ast.AST) -> object:
+        if h.name and isinstance(e, ast.Name) and e.id == h.name:
+            mro = [exc_class]
+            for base in ("CancelledError", "Exception", "BaseException"):
+                if base != exc_class and exc_is_sub(exc_class, base):
+                    mro.append(base)
+            return Abs(*mro, "object")
+        return NOVALUE
+
+    return classify_handler(g, h, skip_edge=scenario(g, env))
